@@ -90,7 +90,7 @@ GROUP = dict(
     models={
         "quick": [_M("MCDispatch_n1_2.cfg"), _M("MCDispatch_n1_3.cfg"), _M("MCDispatch_n0_3.cfg", may_be_zero=("Reroute",)),
                   _M("MCDispatch_n2_2.cfg"), _M("MCDispatch_live.cfg", coverage=False),
-                  dict(cfg="MCDispatchScen_3.cfg", spec="MCDispatchScen.tla", emit=True, max_emit=110)],
+                  dict(cfg="MCDispatchScen_3.cfg", spec="MCDispatchScen.tla", emit=True, max_emit=130)],
         "thorough": [_M("MCDispatch_n1_2.cfg"), _M("MCDispatch_n1_3.cfg"), _M("MCDispatch_n1_3tie.cfg"),
                      _M("MCDispatch_n1_3same.cfg"), _M("MCDispatch_n1_eew.cfg"), _M("MCDispatch_n0_3.cfg", may_be_zero=("Reroute",)),
                      _M("MCDispatch_n2_2.cfg"), _M("MCDispatch_n2_3.cfg", workers=16, timeout=1800),
